@@ -8,14 +8,15 @@ Gcd(a, b) == IF b = 0 THEN (IF a < 0 THEN -a ELSE a) ELSE Gcd(b, a % b)
 RNorm(q) == LET g == Gcd(q[1], q[2])  s == IF q[2] < 0 THEN -1 ELSE 1
             IN IF q[1] = 0 THEN <<0, 1>> ELSE <<(s * q[1]) \div g, (s * q[2]) \div g>>
 RInt(n) == <<n, 1>>
-RAdd(p, q) == RNorm(<<p[1] * q[2] + q[1] * p[2], p[2] * q[2]>>)
+RAdd(p, q) == LET g == Gcd(p[2], q[2]) IN RNorm(<<p[1] * (q[2] \div g) + q[1] * (p[2] \div g), (p[2] \div g) * q[2]>>)     \* via the lcm: smaller intermediates
 RNeg(p) == <<-p[1], p[2]>>
 RSub(p, q) == RAdd(p, RNeg(q))
-RMul(p, q) == RNorm(<<p[1] * q[1], p[2] * q[2]>>)
+RMul(p, q) == LET g1 == Gcd(p[1], q[2])  g2 == Gcd(q[1], p[2])                                  \* cross-cancel first
+              IN IF p[1] = 0 \/ q[1] = 0 THEN <<0, 1>> ELSE RNorm(<<(p[1] \div g1) * (q[1] \div g2), (p[2] \div g2) * (q[2] \div g1)>>)
 RInv(p) == RNorm(<<p[2], p[1]>>)
 RDiv(p, q) == RMul(p, RInv(q))
-RLess(p, q) == p[1] * q[2] < q[1] * p[2]
-RLeq(p, q) == p[1] * q[2] <= q[1] * p[2]
+RLess(p, q) == LET g == Gcd(p[2], q[2]) IN p[1] * (q[2] \div g) < q[1] * (p[2] \div g)
+RLeq(p, q) == LET g == Gcd(p[2], q[2]) IN p[1] * (q[2] \div g) <= q[1] * (p[2] \div g)
 RZero == <<0, 1>>
 ROne == <<1, 1>>
 RECURSIVE RSum(_, _)
